@@ -292,13 +292,16 @@ class CuckooDriver:
     def _reload(self, ch):
         ctx, o = self.ctx, self.obj
         if ch % 2 == 0:
-            new = ctx.call(self.noexc, self.K.frombytes, bytes(o), None, self.hf)
+            raw = ctx.call(self.noexc, bytes, o)
+            self.verify("after exporting to bytes (the exported object itself)")
+            new = ctx.call(self.noexc, self.K.frombytes, raw, None, self.hf)
         else:
             if self.dir is None:
                 self.dir = ctx.tmpdir()
             self.nfile += 1
             p = os.path.join(self.dir, "c%d.cko" % self.nfile)
             ctx.call(self.noexc, o.export, p)
+            self.verify("after exporting to a file (the exported object itself)")
             new = ctx.call(self.noexc, self.K, filepath=p, hash_function=self.hf)
         new.fingerprint_size = self.case["fs"]
         new.expansion_rate = self.case["rate"]
